@@ -416,9 +416,13 @@ def tsv_layout():
     elif len(ib) == 2 and isinstance(ib[0], ast.Assign) and isinstance(ib[0].targets[0], ast.Name) \
             and ast.unparse(ib[1]) == f"content.append({ib[0].targets[0].id})":
         cell = ib[0].value
-    if not (isinstance(cell, ast.IfExp) and ast.unparse(cell.test) == f"{ev} in result_dict" and ast.unparse(cell.body) == f"result_dict[{ev}]"):
+    if isinstance(cell, ast.Call) and ast.unparse(cell.func) == "result_dict.get" and len(cell.args) == 2 and not cell.keywords \
+            and ast.unparse(cell.args[0]) == ev:
+        dflt = cell.args[1]                                              # normalised spelling of `d[k] if k in d else v`
+    elif isinstance(cell, ast.IfExp) and ast.unparse(cell.test) == f"{ev} in result_dict" and ast.unparse(cell.body) == f"result_dict[{ev}]":
+        dflt = cell.orelse
+    else:
         raise Refuse("row cell statement")
-    dflt = cell.orelse
     if not (isinstance(dflt, ast.Constant) and isinstance(dflt.value, str)):
         raise Refuse("row default is not a string constant: " + ast.unparse(dflt))
     out.append(f"Definition gen_missing_cell : name := {cps(dflt.value)}.")
